@@ -763,7 +763,7 @@ def main():
                            "K is compared only when kf/kr stays within 1e+-250 as doubles (counter K_skipped_float_range)"])
     run.require(*REQUIRED)
     thorough = tier() == "thorough"
-    nblocks, per = (500, 1000) if thorough else (80, 250)   # ~0.3 CPU-min per 1000 equations (library deepcopies)
+    nblocks, per = (500, 1000) if thorough else (160, 400)   # ~0.3 CPU-min per 1000 equations (library deepcopies)
     cases = [{"seed": seed(), "block": b, "n": per, "sample_from": (b * 37) % per} for b in range(nblocks)]
     res = pmap("vf.checks.c19:run_block", cases, cpu_budget=900)
     for c, r_ in zip(cases, res):
